@@ -15,6 +15,35 @@ def main():
     a = ap.parse_args()
     seed = int(os.environ.get("VERIF_SEED", "0") or 0)
 
+    # supervisor: the check proper runs in a child interpreter. A child killed by a signal (a native crash inside z3 or
+    # another C extension: SIGSEGV, SIGABRT, SIGBUS) has produced no verdict; it is re-run (at most twice) and its partial
+    # output is discarded. Exit status 2 if it keeps dying. Everything else (exit 0/1/2, output) is passed through as is.
+    if not os.environ.get("VERIF_CHILD"):
+        import signal
+        import subprocess
+
+        env = dict(os.environ, VERIF_CHILD="1")
+        child = {"p": None}
+
+        def _forward(signum, frame):
+            if child["p"] is not None and child["p"].poll() is None:
+                child["p"].terminate()
+            os._exit(2)
+
+        signal.signal(signal.SIGTERM, _forward)
+        signal.signal(signal.SIGINT, _forward)
+        for attempt in range(3):
+            child["p"] = subprocess.Popen([sys.executable, *sys.argv], env=env, stdout=subprocess.PIPE, text=True)
+            out, _ = child["p"].communicate()
+            rc = child["p"].returncode
+            if rc >= 0:
+                sys.stdout.write(out)
+                sys.stdout.flush()
+                os._exit(rc)
+            sys.stderr.write(f"check worker for {a.pid.upper()} died with signal {-rc} (attempt {attempt + 1}); no verdict from that attempt, re-running\n")
+        print(f"TIMEOUT property={a.pid.upper()} (worker died with a signal three times)", flush=True)
+        os._exit(2)
+
     # safety net: a defective tree must not be able to hang the check (a hang in the code under test is reported by the
     # property's own harness; this cap only guarantees termination). Exit status 2 = timeout, no verdict.
     import threading
